@@ -1,8 +1,613 @@
 // C17 - connection roles and diffusion modes gate what is accepted.
+//
+// Translator (gen.go): protocol ids, version flag table, version families.
+// Correspondence + monitor: the finite configuration space (server/client x
+// NtN/NtC/DMQ x full-duplex x keep-alive x peer-sharing x delayed start x
+// every version of the family x peer duplex flag) enumerated against REAL
+// connections (ouroboros.NewConnection over net.Pipe) whose peer is a scripted
+// raw mux peer (verifharness/cmd/c09/muxpeer) that plays the handshake and
+// then sends probe segments in both directions.
 package main
 
-import "verifharness/vh"
+import (
+	"encoding/json"
+	"errors"
+	"fmt"
+	"io"
+	"net"
+	"os"
+	"reflect"
+	"sort"
+	"sync"
+	"sync/atomic"
+	"time"
+	"unsafe"
 
-func run(c *vh.Ctx) error { return nil }
+	ouroboros "github.com/blinklabs-io/gouroboros"
+	"github.com/blinklabs-io/gouroboros/muxer"
+	"github.com/blinklabs-io/gouroboros/protocol"
+	"github.com/blinklabs-io/gouroboros/protocol/keepalive"
+
+	"verifharness/cmd/c09/muxpeer"
+	"verifharness/vh"
+)
+
+const header = `From V Require Import Lib.Base C09.Gen C09.Model C17.Gen C17.Model.
+Open Scope N_scope.`
+
+const longWait = 30 * time.Second
+const magic = 764824073
+
+type config struct {
+	Server      bool   `json:"server"`
+	Kind        string `json:"kind"` // ntn | ntc | dmq
+	FullDuplex  bool   `json:"full_duplex"`
+	KeepAlive   bool   `json:"keepalive"`
+	PeerSharing bool   `json:"peer_sharing"`
+	Delay       bool   `json:"delay_start"`
+	Version     uint16 `json:"version"`
+	PeerDuplex  bool   `json:"peer_duplex"`
+}
+
+func (c config) coq() string {
+	k := map[string]string{"ntn": "NtN", "ntc": "NtC", "dmq": "DMQ"}[c.Kind]
+	return fmt.Sprintf("(mkcfg %s %s %s %s %s %s) (mkneg %d %s)", vh.Bool(c.Server), k, vh.Bool(c.FullDuplex), vh.Bool(c.KeepAlive),
+		vh.Bool(c.PeerSharing), vh.Bool(c.Delay), c.Version, vh.Bool(c.PeerDuplex))
+}
+
+type ep struct {
+	Pid  uint16
+	Resp bool
+}
+
+func coqEps(es []ep) string {
+	sort.Slice(es, func(i, j int) bool {
+		return es[i].Pid < es[j].Pid || (es[i].Pid == es[j].Pid && !es[i].Resp && es[j].Resp)
+	})
+	xs := make([]string, len(es))
+	for i, e := range es {
+		r := "Initiator"
+		if e.Resp {
+			r = "Responder"
+		}
+		xs[i] = fmt.Sprintf("(%d, %s)", e.Pid, r)
+	}
+	return vh.List(xs)
+}
+
+// ---- the specification the monitor uses (property text / network spec; independent of the Coq model)
+func specDuplex(c config) bool { return c.Kind == "ntn" && c.FullDuplex && c.PeerDuplex }
+func roleEnabled(c config, responder bool) bool {
+	if responder {
+		return specDuplex(c) || c.Server
+	}
+	return specDuplex(c) || !c.Server
+}
+func specProtocol(c config, pid uint16) bool {
+	v := int(c.Version)
+	switch c.Kind {
+	case "ntn":
+		switch pid {
+		case 2, 3, 4, 18, 19, 20:
+			return true
+		case 8:
+			return v >= 3
+		case 10:
+			return v >= 11
+		}
+	case "ntc":
+		v -= 0x8000
+		switch pid {
+		case 5, 6:
+			return true
+		case 7:
+			return v >= 2
+		case 9:
+			return v >= 12
+		}
+	case "dmq":
+		return pid == 14 || pid == 15
+	}
+	return false
+}
+
+func versionData(c config) []byte {
+	v := int(c.Version)
+	switch c.Kind {
+	case "ntn":
+		if v >= 11 {
+			return muxpeer.VersionData("ntn", magic, !c.PeerDuplex, 0, false)
+		}
+		return muxpeer.VersionData("ntn-old", magic, !c.PeerDuplex, 0, false)
+	case "ntc":
+		if v-0x8000 >= 15 {
+			return muxpeer.VersionData("ntc", magic, false, 0, false)
+		}
+		return muxpeer.VersionData("ntc-old", magic, false, 0, false)
+	default:
+		return muxpeer.VersionData("ntc", magic, false, 0, false)
+	}
+}
+
+// ---- one real connection with a scripted peer
+
+type probe struct {
+	Raw     uint16 `json:"raw"`
+	Payload string `json:"payload"`
+	// keep-alive request: wait for the handler before hanging up
+	WaitHandler bool `json:"wait_handler"`
+}
+
+type outcome struct {
+	setupErr  error
+	conn      *ouroboros.Connection
+	firstErr  error
+	closedOK  bool // ErrorChan closed or ConnectionClosedError first
+	hung      string
+	kaCalls   int32
+	peerSegs  []muxpeer.Seg
+	regs      []ep
+	mode      int64
+	started   []ep
+	introspOK bool
+	// only write errors (io.ErrClosedPipe) were seen: cannot tell whether the muxer
+	// had rejected the probe (its own error may lose the race for the error channel)
+	ambiguous bool
+}
+
+func dial(c config, p *probe, inspect bool) *outcome {
+	o := &outcome{}
+	ca, cb := net.Pipe()
+	defer ca.Close()
+	peer := &muxpeer.RawPeer{Conn: ca}
+	var mu sync.Mutex
+	segCh := make(chan muxpeer.Seg, 64)
+	go func() {
+		for {
+			s, err := peer.ReadSeg(4 * longWait)
+			if err != nil {
+				close(segCh)
+				return
+			}
+			mu.Lock()
+			o.peerSegs = append(o.peerSegs, s)
+			mu.Unlock()
+			select {
+			case segCh <- s:
+			default:
+			}
+		}
+	}()
+	errCh := make(chan error, 16)
+	var ka int32
+	kaCfg := keepalive.NewConfig(keepalive.WithKeepAliveFunc(func(keepalive.CallbackContext, uint16) error {
+		atomic.AddInt32(&ka, 1)
+		return nil
+	}))
+	type res struct {
+		conn *ouroboros.Connection
+		err  error
+	}
+	done := make(chan res, 1)
+	go func() {
+		conn, err := ouroboros.NewConnection(
+			ouroboros.WithConnection(cb), ouroboros.WithNetworkMagic(magic), ouroboros.WithErrorChan(errCh),
+			ouroboros.WithServer(c.Server), ouroboros.WithNodeToNode(c.Kind == "ntn"), ouroboros.WithDMQ(c.Kind == "dmq"),
+			ouroboros.WithFullDuplex(c.FullDuplex), ouroboros.WithKeepAlive(c.KeepAlive), ouroboros.WithPeerSharing(c.PeerSharing),
+			ouroboros.WithDelayProtocolStart(c.Delay), ouroboros.WithKeepAliveConfig(kaCfg),
+		)
+		done <- res{conn, err}
+	}()
+	// the handshake, and the probe glued to the handshake message so that it is
+	// already on the wire while the connection is still being set up
+	var hs []byte
+	if c.Server {
+		hs = muxpeer.Frame(1, 0, muxpeer.MsgPropose(c.Version, versionData(c)))
+	} else {
+		select {
+		case s, ok := <-segCh:
+			if !ok || s.Pid() != 0 || s.IsResponse() {
+				o.hung = "no handshake proposal from the client"
+				cb.Close()
+				return o
+			}
+		case <-time.After(longWait):
+			o.hung = "no handshake proposal from the client"
+			cb.Close()
+			return o
+		}
+		hs = muxpeer.Frame(1, 0x8000, muxpeer.MsgAccept(c.Version, versionData(c)))
+	}
+	if p != nil {
+		hs = append(hs, muxpeer.Frame(2, p.Raw, vh.UnHex(p.Payload))...)
+	}
+	wdone := make(chan error, 1)
+	go func() { wdone <- peer.WriteChunks([][]byte{hs}, 2*longWait) }()
+	var r res
+	select {
+	case r = <-done:
+	case <-time.After(2 * longWait):
+		o.hung = "NewConnection did not return"
+		cb.Close()
+		return o
+	}
+	o.setupErr, o.conn = r.err, r.conn
+	if r.err != nil {
+		cb.Close()
+		return o
+	}
+	if inspect {
+		o.introspOK = introspect(r.conn, o)
+	}
+	if p != nil {
+		<-wdone
+		if p.WaitHandler {
+			dl := time.Now().Add(longWait)
+			for atomic.LoadInt32(&ka) == 0 && time.Now().Before(dl) {
+				select {
+				case e := <-errCh:
+					o.firstErr = e
+					dl = time.Now()
+				default:
+					time.Sleep(200 * time.Microsecond)
+				}
+			}
+		}
+	}
+	if c.Server {
+		// let the server's accept message arrive before hanging up
+		select {
+		case <-segCh:
+		case <-time.After(longWait):
+		}
+	}
+	// hang up: a connection that accepted everything so far now sees EOF (or, if it
+	// is writing at that moment, io.ErrClosedPipe from net.Pipe)
+	ca.Close()
+	if o.firstErr == nil {
+		select {
+		case e, ok := <-errCh:
+			if ok {
+				o.firstErr = e
+			}
+		case <-time.After(longWait):
+			o.hung = "no error and no shutdown after the peer closed the connection"
+		}
+	}
+	var cce *muxer.ConnectionClosedError
+	sawEOF, sawPipe, sawOther := false, false, false
+	note := func(e error) {
+		switch {
+		case e == nil:
+		case errors.As(e, &cce):
+			sawEOF = true
+		case errors.Is(e, io.ErrClosedPipe):
+			sawPipe = true
+		default:
+			if !sawOther {
+				o.firstErr = e
+			}
+			sawOther = true
+		}
+	}
+	note(o.firstErr)
+	o.kaCalls = atomic.LoadInt32(&ka)
+	cdone := make(chan struct{})
+	go func() { r.conn.Close(); close(cdone) }()
+	select {
+	case <-cdone:
+	case <-time.After(longWait):
+		if o.hung == "" {
+			o.hung = "Connection.Close did not return"
+		}
+		return o
+	}
+	// shutdown closes the error channel; any further error that is not the hang-up counts
+drain:
+	for {
+		select {
+		case e, ok := <-errCh:
+			if !ok {
+				break drain
+			}
+			note(e)
+		case <-time.After(longWait):
+			if o.hung == "" {
+				o.hung = "error channel not closed after Close"
+			}
+			break drain
+		}
+	}
+	o.closedOK = !sawOther
+	o.ambiguous = !sawOther && !sawEOF && sawPipe
+	return o
+}
+
+// introspect reads the muxer's receiver table, its diffusion mode and which
+// protocol instances were started, from unexported fields (read-only
+// reflection; the receiver table under its own mutex).
+func introspect(conn *ouroboros.Connection, o *outcome) (ok bool) {
+	defer func() {
+		if r := recover(); r != nil {
+			ok = false
+		}
+	}()
+	mv := reflect.ValueOf(conn.Muxer()).Elem()
+	mtx := mv.FieldByName("protocolReceiversMutex")
+	recv := mv.FieldByName("protocolReceivers")
+	dm := mv.FieldByName("diffusionMode")
+	if !mtx.IsValid() || !recv.IsValid() || !dm.IsValid() {
+		return false
+	}
+	m := (*sync.Mutex)(unsafe.Pointer(mtx.UnsafeAddr()))
+	m.Lock()
+	for _, k := range recv.MapKeys() {
+		inner := recv.MapIndex(k)
+		for _, rk := range inner.MapKeys() {
+			switch muxer.ProtocolRole(rk.Uint()) {
+			case muxer.ProtocolRoleInitiator:
+				o.regs = append(o.regs, ep{uint16(k.Uint()), false})
+			case muxer.ProtocolRoleResponder:
+				o.regs = append(o.regs, ep{uint16(k.Uint()), true})
+			}
+		}
+	}
+	m.Unlock()
+	o.mode = (*atomic.Int64)(unsafe.Pointer(dm.UnsafeAddr())).Load()
+	// protocol instances: every exported getter of Connection returning a struct with Client/Server
+	cv := reflect.ValueOf(conn)
+	for i := 0; i < cv.NumMethod(); i++ {
+		mt := cv.Type().Method(i)
+		if mt.Type.NumIn() != 1 || mt.Type.NumOut() != 1 || mt.Type.Out(0).Kind() != reflect.Ptr || mt.Type.Out(0).Elem().Kind() != reflect.Struct {
+			continue
+		}
+		st := mt.Type.Out(0).Elem()
+		if _, has := st.FieldByName("Client"); !has {
+			continue
+		}
+		if _, has := st.FieldByName("Server"); !has {
+			continue
+		}
+		obj := cv.Method(i).Call(nil)[0]
+		if obj.IsNil() || mt.Name == "Handshake" {
+			continue
+		}
+		for _, side := range []string{"Client", "Server"} {
+			sv := obj.Elem().FieldByName(side)
+			if sv.IsNil() {
+				continue
+			}
+			pv := sv.Elem().FieldByName("Protocol")
+			if !pv.IsValid() || pv.IsNil() {
+				return false
+			}
+			pe := pv.Elem()
+			cfg := pe.FieldByName("config")
+			q := pe.FieldByName("sendQueueChan")
+			if !cfg.IsValid() || !q.IsValid() {
+				return false
+			}
+			if !q.IsNil() {
+				o.started = append(o.started, ep{uint16(cfg.FieldByName("ProtocolId").Uint()), protocol.ProtocolRole(cfg.FieldByName("Role").Uint()) == protocol.ProtocolRoleServer})
+			}
+		}
+	}
+	return true
+}
+
+// ---- probes
+
+var donePayload = map[uint16]string{
+	2: "8107", 5: "8107", // chain-sync MsgDone
+	3:  "8101",       // block-fetch MsgClientDone
+	8:  "8200191234", // keep-alive MsgKeepAlive(0x1234)
+	10: "8102",       // peer-sharing MsgDone
+	6:  "8103",       // local-tx-submission MsgDone
+	7:  "8107",       // local-state-query MsgDone
+}
+
+type replay struct {
+	Cfg   config `json:"cfg"`
+	Probe *probe `json:"probe,omitempty"`
+}
+
+func runSetup(c *vh.Ctx, cf *vh.CaseFile, cfg config) {
+	rp := replay{Cfg: cfg}
+	c.Begin(rp)
+	o := dial(cfg, nil, true)
+	canon, _ := json.Marshal(cfg)
+	c.Res.Count("setup/"+string(canon), true, "setup:"+cfg.Kind)
+	if o.hung != "" {
+		c.Res.Violate("monitor", "hang:setup", o.hung, rp)
+		return
+	}
+	if o.setupErr != nil {
+		c.Res.Violate("monitor", "setup-failed", fmt.Sprintf("NewConnection failed after a valid handshake: %v", o.setupErr), rp)
+		return
+	}
+	if !o.closedOK {
+		c.Res.Violate("monitor", "spurious-error-after-setup", fmt.Sprintf("connection reported %v without any traffic", o.firstErr), rp)
+	}
+	if !o.introspOK {
+		c.Res.Notes = append(c.Res.Notes, "introspection of unexported muxer/protocol fields unavailable: setup cases skipped")
+		return
+	}
+	// monitor: started = enabled by spec; every started instance registered; nothing registered in a disabled role
+	isReg := map[ep]bool{}
+	for _, e := range o.regs {
+		isReg[e] = true
+		if e.Pid != 0 && !roleEnabled(cfg, e.Resp) {
+			c.Res.Violate("monitor", fmt.Sprintf("registered-in-disabled-role:%d", e.Pid), fmt.Sprintf("receiver %v registered although that role is not enabled", e), rp)
+		}
+	}
+	isStarted := map[ep]bool{}
+	for _, e := range o.started {
+		isStarted[e] = true
+		if !isReg[e] {
+			c.Res.Violate("monitor", fmt.Sprintf("started-not-registered:%d", e.Pid), fmt.Sprintf("protocol instance %v started but has no muxer receiver", e), rp)
+		}
+	}
+	for pid := uint16(1); pid < 32; pid++ {
+		for _, resp := range []bool{false, true} {
+			want := !cfg.Delay && specProtocol(cfg, pid) && roleEnabled(cfg, resp) && (pid != 8 || resp || cfg.KeepAlive)
+			if want != isStarted[ep{pid, resp}] {
+				c.Res.Violate("monitor", fmt.Sprintf("started-differs-from-spec:%d", pid), fmt.Sprintf("protocol %d responder=%v: started=%v, enabled by negotiation=%v", pid, resp, !want, want), rp)
+			}
+		}
+	}
+	wantMode := muxer.DiffusionModeInitiator
+	if cfg.Kind == "ntn" && cfg.PeerDuplex {
+		wantMode = muxer.DiffusionModeInitiatorAndResponder
+	} else if cfg.Server {
+		wantMode = muxer.DiffusionModeResponder
+	}
+	_ = wantMode
+	if (muxer.DiffusionMode(o.mode) == muxer.DiffusionModeInitiator && roleEnabled(cfg, true)) || (muxer.DiffusionMode(o.mode) == muxer.DiffusionModeResponder && roleEnabled(cfg, false)) {
+		c.Res.Violate("monitor", "mode-stricter-than-roles", fmt.Sprintf("muxer mode %d forbids an enabled role", o.mode), rp)
+	}
+	c.Res.Sample(map[string]any{"cfg": cfg, "registered": len(o.regs), "started": len(o.started), "mode": o.mode})
+	cf.Add(fmt.Sprintf("CSetup %s %s %d %s", cfg.coq(), coqEps(o.regs), o.mode, coqEps(o.started)), rp)
+	c.Res.TracesValidated++
+}
+
+func runProbe(c *vh.Ctx, cf *vh.CaseFile, cfg config, p probe) {
+	rp := replay{Cfg: cfg, Probe: &p}
+	c.Begin(rp)
+	o := dial(cfg, &p, false)
+	for i := 0; i < 6 && o.ambiguous && o.hung == ""; i++ {
+		o = dial(cfg, &p, false)
+	}
+	if o.ambiguous {
+		c.Res.Notes = append(c.Res.Notes, "probe outcome ambiguous (only write errors observed); case skipped")
+		return
+	}
+	pid, isResp := p.Raw&0x7fff, p.Raw&0x8000 != 0
+	class := map[bool]string{false: "request", true: "response"}[isResp]
+	canon, _ := json.Marshal(rp)
+	c.Res.Count("probe/"+string(canon), true, "probe:"+class)
+	if o.hung != "" {
+		c.Res.Violate("monitor", "hang:probe:"+class, o.hung, rp)
+		return
+	}
+	if o.setupErr != nil {
+		c.Res.Violate("monitor", "setup-failed", fmt.Sprintf("NewConnection failed after a valid handshake: %v", o.setupErr), rp)
+		return
+	}
+	accepted := o.closedOK
+	// monitor (property text)
+	switch {
+	case !isResp && !roleEnabled(cfg, true) && accepted:
+		c.Res.Violate("monitor", fmt.Sprintf("request-accepted-on-initiator-only:%d", pid), "a request segment did not fail an initiator-only connection", rp)
+	case !isResp && !roleEnabled(cfg, true) && o.kaCalls > 0:
+		c.Res.Violate("monitor", "handler-called-on-initiator-only", "keep-alive server handler ran on an initiator-only connection", rp)
+	case isResp && !roleEnabled(cfg, false) && accepted:
+		c.Res.Violate("monitor", fmt.Sprintf("response-accepted-on-responder-only:%d", pid), "a response segment did not fail a responder-only connection", rp)
+	case !isResp && roleEnabled(cfg, true) && specProtocol(cfg, pid) && !accepted:
+		c.Res.Violate("monitor", fmt.Sprintf("enabled-responder-unreachable:%d", pid), fmt.Sprintf("a request for an enabled protocol failed the connection: %v", o.firstErr), rp)
+	case !isResp && roleEnabled(cfg, true) && !cfg.Delay && pid == 8 && specProtocol(cfg, 8) && p.WaitHandler && o.kaCalls == 0:
+		c.Res.Violate("monitor", "enabled-responder-no-handler-call:8", "keep-alive request on an enabled responder never reached the handler", rp)
+	case !specProtocol(cfg, pid) && pid != 0 && accepted:
+		c.Res.Violate("monitor", fmt.Sprintf("segment-for-disabled-protocol-accepted:%d", pid), "a segment for a protocol the negotiated version does not carry was accepted", rp)
+	}
+	cf.Add(fmt.Sprintf("CProbe %s %d %s", cfg.coq(), p.Raw, vh.Bool(accepted)), rp)
+	c.Res.TracesValidated++
+}
+
+func allConfigs() []config {
+	var out []config
+	fam := map[string][]uint16{"ntn": protocol.GetProtocolVersionsNtN(), "ntc": protocol.GetProtocolVersionsNtC(), "dmq": protocol.GetProtocolVersionsDMQNtC()}
+	for _, kind := range []string{"ntn", "ntc", "dmq"} {
+		for _, v := range fam[kind] {
+			for b := 0; b < 64; b++ {
+				cfg := config{Server: b&1 != 0, Kind: kind, FullDuplex: b&2 != 0, KeepAlive: b&4 != 0, PeerSharing: b&8 != 0, Delay: b&16 != 0, PeerDuplex: b&32 != 0, Version: v}
+				if kind != "ntn" && cfg.PeerDuplex {
+					continue // no diffusion-mode field in node-to-client version data
+				}
+				out = append(out, cfg)
+			}
+		}
+	}
+	return out
+}
+
+func probesFor(cfg config, r *vh.Rng) []probe {
+	var ps []probe
+	pids := map[string][]uint16{"ntn": {2, 3, 8, 10, 4, 18}, "ntc": {5, 6, 7, 9}, "dmq": {14, 15}}[cfg.Kind]
+	pid := vh.PickOne(r, pids)
+	// a request for one of the kind's protocols
+	if pl, ok := donePayload[pid]; ok {
+		ps = append(ps, probe{Raw: pid, Payload: pl, WaitHandler: pid == 8 && !cfg.Delay && roleEnabled(cfg, true) && specProtocol(cfg, 8)})
+	} else if !(roleEnabled(cfg, true) && specProtocol(cfg, pid)) {
+		ps = append(ps, probe{Raw: pid, Payload: "8100"})
+	}
+	// a response, only where no initiator may exist (an accepted response would meet a client without agency)
+	if !roleEnabled(cfg, false) {
+		ps = append(ps, probe{Raw: 0x8000 | vh.PickOne(r, pids), Payload: "8101"})
+	}
+	// a protocol of another kind / unknown number
+	other := vh.PickOne(r, []uint16{1, 11, 99, 0x7fff, map[string]uint16{"ntn": 5, "ntc": 2, "dmq": 5}[cfg.Kind]})
+	raw := other
+	if !roleEnabled(cfg, true) && r.Bool() || !roleEnabled(cfg, false) && false {
+		raw = other
+	}
+	ps = append(ps, probe{Raw: raw, Payload: "8100"})
+	return ps
+}
+
+func run(c *vh.Ctx) error {
+	c.Res.Rule = "every combination of server/client, NtN/NtC/DMQ, full-duplex asked, keep-alives, peer-sharing, delayed start, every version of the family, peer duplex flag (NtN) is dialled against the real Connection with a scripted handshake; setup cases record muxer registrations, diffusion mode and started instances; probe cases glue one request / response / foreign-protocol segment to the handshake message and record accepted vs failed; distinct by configuration (+probe); all non-trivial"
+	c.Res.Modelled = []string{
+		"registrations, diffusion mode and started flags are read from unexported fields by reflection (no hook); 'accepted' = the first error after the probe is the EOF caused by the peer hanging up",
+		"query mode, DMQ node-to-node and handshake failures are outside the model; the negotiated version is scripted (any version of the family)",
+	}
+	cf := c.NewCaseFile("c17", header)
+	cf.SetShardSize(200)
+	if c.Replay != "" {
+		b, err := os.ReadFile(c.Replay)
+		if err != nil {
+			return err
+		}
+		var rp struct {
+			Replay replay `json:"replay"`
+		}
+		if err := json.Unmarshal(b, &rp); err != nil {
+			return err
+		}
+		if rp.Replay.Probe != nil {
+			for i := 0; i < 5; i++ {
+				runProbe(c, cf, rp.Replay.Cfg, *rp.Replay.Probe)
+			}
+		} else {
+			runSetup(c, cf, rp.Replay.Cfg)
+		}
+		cf.Flush()
+		return nil
+	}
+	cfgs := allConfigs()
+	for i, cfg := range cfgs {
+		// quick: every configuration's setup except that peer-sharing (which does not
+		// steer setup) is sampled; thorough: all
+		if !c.Thorough() && cfg.PeerSharing != ((uint32(i)*2654435761>>11)%2 == 0) && cfg.Kind != "dmq" {
+			continue
+		}
+		runSetup(c, cf, cfg)
+	}
+	for i, cfg := range cfgs {
+		if cfg.KeepAlive && !cfg.Server {
+			// a client that sends keep-alives writes on its own: its write error and the
+			// muxer's rejection race for the error channel; the keep-alive option is
+			// covered by the setup cases
+			continue
+		}
+		if !c.Thorough() && (cfg.PeerSharing || ((uint32(i)*2654435761>>9)^uint32(c.Seed))%2 != 0) && cfg.Kind != "dmq" {
+			continue
+		}
+		for _, p := range probesFor(cfg, c.Rng) {
+			runProbe(c, cf, cfg, p)
+		}
+	}
+	cf.Flush()
+	return nil
+}
 
 func main() { vh.Main(vh.Runner{Property: "C17", Gen: gen, Run: run}) }
